@@ -816,13 +816,21 @@ fn abort_error(tcb: &Tcb) -> Option<Error> {
 fn abort_with(k: &mut Kernel, fd: Fd, reason: AbortReason) {
     let st = k.lookup_mut(fd).unwrap();
     if let Some(tcb) = st.tcb.as_mut() {
+        // In LAST_ACK / CLOSING both FINs have been exchanged and only the ACK of
+        // ours is missing: lost, or the peer is already gone and answers with RST
+        // (there is no TIME_WAIT to re-ACK a retransmitted FIN). The peer's stream
+        // is complete, so enter CLOSED without signalling the user (RFC 793) and
+        // keep `recv_buf`: bytes already received stay readable, then EOF.
+        let quiet = matches!(tcb.state, TcpState::LastAck | TcpState::Closing);
         tcb.state = TcpState::Closed;
-        match reason {
-            AbortReason::Reset => tcb.reset = true,
-            AbortReason::TimedOut => tcb.timed_out = true,
-        }
         tcb.send_buf.clear();
-        tcb.recv_buf.clear();
+        if !quiet {
+            match reason {
+                AbortReason::Reset => tcb.reset = true,
+                AbortReason::TimedOut => tcb.timed_out = true,
+            }
+            tcb.recv_buf.clear();
+        }
     }
     if let Some(w) = st.connect_waker.take() {
         w.wake();
